@@ -4,7 +4,7 @@
 (* the message limit.  C12 (and C01's "exactly the value sent").  The limits   *)
 (* below are the numbers the property states, written here independently of    *)
 (* the capacities in CtapTables.                                               *)
-EXTENDS Ctap, Gen, Faults
+EXTENDS Ctap, Gen, Faults, Dict
 
 Idx(i) == [idx |-> i]
 
@@ -127,7 +127,17 @@ ParamAlgCases ==
                [n |-> BNMaxI32, neg |-> FALSE, expect |-> "accept"], [n |-> BNMaxI32, neg |-> TRUE, expect |-> "accept"],
                [n |-> BNSucc(BNMaxU32), neg |-> FALSE, expect |-> "reject"]}}
 
-MC_Cases == SizeCases \cup UnboundedCases \cup IntCases \cup ParamTypeCases \cup ParamAlgCases
+\* a value within its limit is accepted whatever its CONTENT: the words of the source's dictionary
+\* alone and as a prefix, white space at either end, in every bounded text and byte member
+ContentWords(limit) ==
+    {w \in DictAscii : Len(w) <= limit}
+    \cup {w \o AsciiPattern(9, 12) : w \in {x \in DictAscii : Len(x) <= 8 /\ Len(x) + 12 <= limit}}
+    \cup {<<32>> \o AsciiPattern(9, 6), AsciiPattern(9, 6) \o <<32>>, AsciiPattern(9, limit - 1) \o <<32>>}
+ContentCases ==
+    UNION {{LatCase(r.c, r.keys, IF r.kind = "text" THEN CText(w) ELSE CBytes(w), "accept", "content:" \o r.name) : w \in ContentWords(r.limit)}
+           : r \in {x \in SizeRows : x.kind \in {"text", "bytes"} /\ ~x.exact}}
+
+MC_Cases == SizeCases \cup UnboundedCases \cup IntCases \cup ParamTypeCases \cup ParamAlgCases \cup ContentCases
 
 (***************************************************************************)
 (* C12 on the model: the decoder's decision agrees with the limits above   *)
